@@ -105,8 +105,12 @@ pub fn message_type(r: &mut Rng, not: &[u8]) -> MessageType {
 }
 /// serialised length of a payload (PayloadContent::as_bytes is crate-private), computed from its parts so that the driver does
 /// not depend on Message::as_bytes accepting a message whose length field is not filled in yet
+/// The payload length a well-formed message value records: the number of bytes ITS payload serialises to ("payload length consistent
+/// with the payload" - C01, C05, C09, C15, C16 ... speak about a message and its own serialisation; that the serialisation has the
+/// prescribed layout is C02's business alone, whose drivers use the reference encoder of the specification).  Taken from the crate's
+/// writer through a minimal message (PayloadContent::as_bytes is not public); the independent formula only if the writer panics.
 pub fn payload_len(p: &PayloadContent, e: Endianness) -> usize {
-    match p {
+    let formula = || match p {
         PayloadContent::Verbose(args) => args.iter().map(|a| {
             let a2 = a.clone();
             std::panic::catch_unwind(move || match e { Endianness::Big => a2.as_bytes::<byteorder::BigEndian>().len(), Endianness::Little => a2.as_bytes::<byteorder::LittleEndian>().len() }).unwrap_or(0)
@@ -114,7 +118,21 @@ pub fn payload_len(p: &PayloadContent, e: Endianness) -> usize {
         PayloadContent::NonVerbose(_, d) => 4 + d.len(),
         PayloadContent::ControlMsg(_, d) => 1 + d.len(),
         PayloadContent::NetworkTrace(slices) => slices.iter().map(|s| 4 + 2 + s.len()).sum(),
+    };
+    let probe = Message {
+        storage_header: None,
+        header: StandardHeader { version: 1, endianness: e, has_extended_header: false, message_counter: 0, ecu_id: None, session_id: None, timestamp: None, payload_length: 0 },
+        extended_header: None,
+        payload: p.clone(),
+    };
+    match std::panic::catch_unwind(move || (probe.as_bytes().len(), probe.header.as_bytes().len())) {
+        Ok((all, hdr)) if all >= hdr => all - hdr,
+        _ => formula(),
     }
+}
+/// the same for a finished message value (cases generated by TLC carry the reference layout's payload length)
+pub fn own_payload_len(m: &Message) -> usize {
+    payload_len(&m.payload, m.header.endianness)
 }
 /// Message::as_bytes for the drivers' own generating steps: a panic of the writer on a generated message must not take the driver down
 /// (it is data for the properties about the writer, and no input at all for the others).  A serialised message is never empty, so an
